@@ -12,6 +12,16 @@ class C12(MCMCProp):
     modes = ["sparse", "sparse", "sparse", "zeros", "full"]
     min_topologies = 2
     budgets = {"quick": 30, "thorough": 400}
+    search_budget = {"quick": 150, "thorough": 1500}
+
+    def gen(self, rng, i, tier):
+        return self.gen_dense(rng, i, tier) if i % 5 == 4 else super().gen(rng, i, tier)
+
+    def search_cases(self, rng, seeds, n, tier):
+        for s in seeds:
+            yield s
+        for i in range(n):
+            yield self.gen_dense(rng, i, tier) if i % 4 else super().gen(rng, i, tier)
 
     def oracle(self, case, obs):
         return self.clauses_c12(case, obs)
